@@ -330,3 +330,58 @@ func (c *Ctx) ObjName(o types.Object) string {
 	}
 	return c.Rel(o.Pkg()) + "." + o.Name()
 }
+
+// LookupBody: like LookupMethod, but when the method is a thin wrapper - it takes the lock, installs its defers and
+// hands all its parameters to one unexported method of the same object, returning that method's results - the rules
+// about *what the method does* look at that inner method (Accept -> accept, as CanAccept -> canAccept already is).
+func (c *Ctx) LookupBody(rel, typ, name string) *ssa.Function {
+	fn := c.LookupMethod(rel, typ, name)
+	if fn == nil {
+		return nil
+	}
+	if inner := thinWrapperInner(fn); inner != nil {
+		return inner
+	}
+	return fn
+}
+
+// thinWrapperInner: the unexported method fn hands all its parameters to while doing nothing else but locking and
+// deferring (nil if fn is not such a wrapper).
+func thinWrapperInner(fn *ssa.Function) *ssa.Function {
+	var inner *ssa.Function
+	calls := 0
+	other := false
+	allInstrs(fn, func(in ssa.Instruction) {
+		switch x := in.(type) {
+		case *ssa.Call:
+			g := x.Call.StaticCallee()
+			if g == nil {
+				other = true
+				return
+			}
+			if g.Pkg != nil && g.Pkg.Pkg.Path() == "sync" {
+				return
+			}
+			if isLocalHelper(fn, g) && g.Signature.Recv() != nil && len(x.Call.Args) == len(fn.Params) {
+				same := true
+				for i, a := range x.Call.Args {
+					if a != ssa.Value(fn.Params[i]) {
+						same = false
+					}
+				}
+				if same {
+					inner = g
+					calls++
+					return
+				}
+			}
+			other = true
+		case *ssa.Store, *ssa.MapUpdate, *ssa.If, *ssa.Send, *ssa.Go:
+			other = true
+		}
+	})
+	if inner != nil && calls == 1 && !other {
+		return inner
+	}
+	return nil
+}
